@@ -137,3 +137,12 @@ void msg_queue_insert(struct lp_msg *msg)
 	    memory_order_relaxed)))
 		spin_pause();
 }
+
+#ifdef ROOTSIM_VERIF
+/// Verification hook: exposes the file-local queue ordering macro to the external harness
+bool verif_q_elem_is_before(simtime_t ta, struct lp_msg *ma, simtime_t tb, struct lp_msg *mb)
+{
+	struct q_elem a = {.t = ta, .m = ma}, b = {.t = tb, .m = mb};
+	return q_elem_is_before(a, b);
+}
+#endif
